@@ -280,5 +280,5 @@ SUBS = [
         rule="one hedger with a recording user model used for 1..3 rounds with changing n_paths (1..6), steps (2..7) and "
              "number of hedging instruments H (1..3); prev_hedge placed at a drawn position among the inputs. "
              "Non-trivial: H>=2 in some round or at least two rounds.",
-        strategy=lambda tier: feedback_case(), examples={"quick": 800, "thorough": 8000}),
+        strategy=lambda tier: feedback_case(), examples={"quick": 800, "thorough": 8000}, fuzz={"thorough": 60.0}),
 ]
